@@ -159,18 +159,21 @@ func runThemes(r *Run, seedOffset int64, themes ...func(*Run, *rand.Rand) *route
 // C02 - registered routes behave as an exact map keyed by (method, pattern).
 func checkC02(r *Run) {
 	runThemes(r, 0, themeSeqPath, themeSeqHost, themeTxnTrunc)
+	runRouterD2(r, 2)
 	r.assumption("route identity is observed through pointer equality and a per-registration annotation")
 }
 
 // C07 - routing depends only on the registered set, not on its history.
 func checkC07(r *Run) {
 	runThemes(r, 7, themeSeqPath, themeSeqHost, themeTxnFanout, themeTxnNested)
+	runMatchD2(r, true, true)
 	r.assumption("every edge of the exhaustive state graph is one history into its target set; all must answer the probes as the specification prescribes for that set")
 }
 
 // C03 - a published routing state never changes.
 func checkC03(r *Run) {
 	runThemes(r, 3, themeTxnSibling, themeTxnNested, themeTxnFanout)
+	runRouterD2(r, 3)
 }
 
 // C04 - transactions are atomic and isolated.
